@@ -935,6 +935,72 @@ package bloomsearch
 //@ ensures err == nil && !ok ==> s.pos == old(s.pos) && s.pos == len(s.data)
 //@ ensures err != nil ==> !ok
 
+// ---------------------------------------------------------------------------
+// Read helpers: the safety sweep of C19. Every framing field ranges over all of
+// int; the file is an arbitrary byte sequence of size fileSize(file). Proved:
+// no index/slice/make panic, and no allocation sized by a framing field that
+// exceeds the file's size (alloc_limit).
+// ---------------------------------------------------------------------------
+
+//@ specfun fileSize(r iface) int
+//@ extern io.ReadSeeker.Seek
+//@ ensures fileSize(recv) >= 0
+//@ ensures result1 == nil && whence == 2 && offset == 0 ==> result0 == fileSize(recv)
+//@ extern io.ReadSeekCloser.Seek
+//@ ensures fileSize(recv) >= 0
+//@ ensures result1 == nil && whence == 2 && offset == 0 ==> result0 == fileSize(recv)
+//@ extern io.Seeker.Seek
+//@ ensures fileSize(recv) >= 0
+//@ ensures result1 == nil && whence == 2 && offset == 0 ==> result0 == fileSize(recv)
+//@ extern io.ReadFull
+//@ modifies buf[*]
+
+// An extent accepted by checkExtentWithinFile lies inside the file (stated over
+// mathematical integers: the subtraction form cannot overflow).
+//@ func checkExtentWithinFile
+//@ props C19
+//@ safety
+//@ requires offset >= 0 && size >= 0
+//@ ensures result == nil ==> offset + size <= fileSize(file)
+
+//@ func readFullAt
+//@ props C19 C24
+//@ safety
+//@ modifies buf[*]
+
+// decodeBlockRowDataInto: CRC before decompression; output bounded by the
+// block's UncompressedSize (not a framing field: it sizes the decode buffer and
+// is checked non-negative; the stream must decode to exactly that many bytes).
+//@ func decodeBlockRowDataInto
+//@ props C19
+//@ safety
+//@ requires block != nil
+//@ modifies heaps
+//@ ensures result1 == nil && normalizeCompressionIsNone(block) ==> result0 == compressed
+//@ pred normalizeCompressionIsNone(b *DataBlockMetadata) = b.Compression == "" || b.Compression == CompressionNone
+
+//@ func ReadDataBlockRowData
+//@ props C19
+//@ safety
+//@ alloc_limit fileSize(file)
+//@ requires block != nil
+//@ modifies heaps
+
+//@ func readPooledBlockRowData
+//@ props C19 C03
+//@ safety
+//@ alloc_limit fileSize(file)
+//@ requires block != nil
+//@ modifies heaps, ghost.bufOwned
+//@ at call getScanBuffer#1 assert [C19] block.RowDataSize <= fileSize(file)
+
+//@ func ReadDataBlockBloomFilters
+//@ props C19 C03
+//@ safety
+//@ alloc_limit fileSize(file)
+//@ modifies heaps, ghost.bufOwned
+//@ at call getScanBuffer#1 assert [C19] blockMetadata.BloomFilterSize <= fileSize(file)
+
 // Scan-buffer pool (codec_pool.go). bufOwned[a] means backing array a is checked
 // out of the pool: set by getScanBuffer, cleared by putScanBuffer, which
 // requires it — so a buffer can never be returned twice and a buffer that was
